@@ -5,3 +5,9 @@ add("C01", "model_checking",
     "Trusted: TLC, harness stepping loop and in-memory wire, reference byte stream. Limits are derived by the spec from the two settings (RFC 8449), not read from the code.",
     "TLA+ spec (Record.tla) model-checked by TLC + TLC trace validation of live two-endpoint connections",
     "tla-record")
+add("C02", "model_checking",
+    "TLC exhaustively checks Record.tla with the key-less adversary (flip/drop/dup/swap/reflect/old-epoch, <=1 op quick, <=2 thorough) for AcceptOnlyGenuineNext and DeadIsFinal. Binding: for one suite per cipher class x version x EtM, the receiving RecordLayer of a live connection is shown every single-bit flip, byte inversion, truncation, extension and SSLv2 re-framing of pending records and every arrangement of a 3-record window from a restorable state; TLC compares each outcome with the spec's acceptance rule (Expect/IsNext). Connection-level attacks (one per connection) are validated incl. RejectIsFatal (closed, not resumable, fatal integrity alert on the wire, nothing delivered).",
+    "DESIGN.md section 5 C02, section 3.1",
+    "Trusted: TLC, harness wire, copy/deepcopy snapshot of the read ConnectionState. Plaintext-epoch records are not attacked here (C04).",
+    "TLA+ spec with adversary model-checked by TLC + TLC validation of attack traces replayed into real record layers",
+    "tla-record")
